@@ -259,6 +259,10 @@ func VerifC02_SnapshotRestore() {
 	}
 	if verifrt.Bool("autopilot") {
 		must(s.AutopilotSetConfig(tick(), &structs.AutopilotConfig{MaxTrailingLogs: verifrt.U64("autopilot.trailing")}))
+		if verifrt.Bool("autopilot.updated") {
+			// (an update: create and modify index now differ)
+			must(s.AutopilotSetConfig(tick(), &structs.AutopilotConfig{MaxTrailingLogs: verifrt.U64("autopilot.trailing2")}))
+		}
 	}
 
 	restored := vSnapshotRestore(s)
